@@ -16,6 +16,7 @@ import Mathlib.Tactic.Positivity
 import Mathlib.Data.Matrix.Mul
 import Mathlib.Data.Matrix.Basic
 import Mathlib.Algebra.BigOperators.Fin
+import Mathlib.Algebra.BigOperators.Field
 import Mathlib.Algebra.Order.AbsoluteValue.Basic
 
 set_option linter.unusedSectionVars false
@@ -495,5 +496,140 @@ theorem reach_sym (htol : 0 ≤ c.tol) (hp : 0 ≤ pα) (hroot : ∀ z, 0 ≤ z 
 end Run
 
 end Concrete
+
+/-! ## eigh root -/
+
+section Eigh
+variable {α : Type} [Field α] [LinearOrder α] [IsStrictOrderedRing α] {n : Nat}
+
+theorem conj_diag_pow (U : MatR α n) (hU1 : Uᵀ * U = 1) (hU2 : U * Uᵀ = 1) (g : Fin n → α) (p : Nat) :
+    (U * Matrix.diagonal g * Uᵀ) ^ p = U * Matrix.diagonal (fun k => g k ^ p) * Uᵀ := by
+  induction p with
+  | zero => simp [hU2]
+  | succ q ih =>
+    rw [pow_succ, ih]
+    calc U * diagonal (fun k => g k ^ q) * Uᵀ * (U * diagonal g * Uᵀ)
+        = U * diagonal (fun k => g k ^ q) * (Uᵀ * U) * diagonal g * Uᵀ := by simp only [mul_assoc]
+      _ = U * (diagonal (fun k => g k ^ q) * diagonal g) * Uᵀ := by rw [hU1]; simp only [mul_one, mul_assoc]
+      _ = _ := by rw [diagonal_mul_diagonal]; congr 3; funext k; rw [pow_succ]
+
+theorem eighVal_eq (sqrt : α → α) (U : Mat α n n) (v : Vec α n) :
+    (Matrix.of (eighVal sqrt U v) : MatR α n) =
+      (Matrix.of U : MatR α n) * Matrix.diagonal (fun k => sqrt (v k) * sqrt (v k)) * (Matrix.of U : MatR α n)ᵀ := by
+  ext i j
+  rw [Matrix.mul_apply]
+  simp only [Matrix.mul_diagonal, Matrix.transpose_apply, Matrix.of_apply]
+  simp only [eighVal, Mat.mul, Mat.transpose, sumFin_eq_sum]
+  apply Finset.sum_congr rfl
+  intro k _; ring
+
+/-- `inv_e` on the two kinds of eigen-indices -/
+theorem eighInvE_eq [BEq α] [LawfulBEq α] (s : Nat) (invroot : α → α) (ridge : α) (hridge : 0 < ridge) (e : Vec α n)
+    (hpos : ∀ i, n - 1 - i.val < s → ridge ≤ e i) (i : Fin n) :
+    eighInvE s invroot ridge e i = if n - 1 - i.val < s then invroot (e i) else 0 := by
+  unfold eighInvE flipIx
+  by_cases h : n - 1 - i.val < s
+  · have hei := hpos i h
+    have hpos' : 0 < e i := lt_of_lt_of_le hridge hei
+    simp only [h, if_true, mul_one, maxS_eq_max, max_eq_left hei]
+    have : (e i == 0) = false := by simp [ne_of_gt hpos']
+    simp [this, hpos']
+  · simp [h]
+
+theorem conj_diag_mul (U : MatR α n) (hU1 : Uᵀ * U = 1) (g h : Fin n → α) :
+    (U * Matrix.diagonal g * Uᵀ) * (U * Matrix.diagonal h * Uᵀ) = U * Matrix.diagonal (fun k => g k * h k) * Uᵀ := by
+  calc U * diagonal g * Uᵀ * (U * diagonal h * Uᵀ)
+      = U * diagonal g * (Uᵀ * U) * diagonal h * Uᵀ := by simp only [mul_assoc]
+    _ = U * (diagonal g * diagonal h) * Uᵀ := by rw [hU1]; simp only [mul_one, mul_assoc]
+    _ = _ := by rw [diagonal_mul_diagonal]
+
+/-- the eigh root in the eigenbasis: `X = U diag(inv_e) Uᵀ`, `X^p · (U diag(e) Uᵀ) = U diag(flip(ix)) Uᵀ`, `X` symmetric,
+and `X` is absorbed by `U diag(flip(ix)) Uᵀ` -/
+theorem eigh_root_core [BEq α] [LawfulBEq α] (s p : Nat) (sqrt invroot : α → α) (ridge : α) (hridge : 0 < ridge)
+    (U : Mat α n n) (e : Vec α n)
+    (hU1 : (Matrix.of U : MatR α n)ᵀ * Matrix.of U = 1) (hU2 : (Matrix.of U : MatR α n) * (Matrix.of U)ᵀ = 1)
+    (hpos : ∀ i : Fin n, n - 1 - i.val < s → ridge ≤ e i) (hzero : ∀ i : Fin n, ¬ n - 1 - i.val < s → e i = 0)
+    (hsqrt : ∀ x, 0 ≤ x → sqrt x * sqrt x = x) (hinv : ∀ x, 0 < x → 0 ≤ invroot x ∧ invroot x ^ p * x = 1) :
+    let X : MatR α n := Matrix.of (eighVal sqrt U (eighInvE s invroot ridge e))
+    let P : MatR α n := Matrix.of U * Matrix.diagonal (flipIx n s) * (Matrix.of U)ᵀ
+    X ^ p * (Matrix.of U * Matrix.diagonal e * (Matrix.of U)ᵀ) = P ∧ Xᵀ = X ∧ X * P = X ∧ P * X = X := by
+  intro X P
+  have hv : ∀ k, eighInvE s invroot ridge e k = if n - 1 - k.val < s then invroot (e k) else 0 :=
+    eighInvE_eq s invroot ridge hridge e hpos
+  have hv0 : ∀ k, 0 ≤ eighInvE s invroot ridge e k := by
+    intro k; rw [hv]; split
+    · rename_i h; exact (hinv _ (lt_of_lt_of_le hridge (hpos k h))).1
+    · exact le_refl _
+  have hX : X = Matrix.of U * Matrix.diagonal (eighInvE s invroot ridge e) * (Matrix.of U)ᵀ := by
+    show Matrix.of (eighVal sqrt U (eighInvE s invroot ridge e)) = _
+    rw [eighVal_eq]
+    have : (fun k => sqrt (eighInvE s invroot ridge e k) * sqrt (eighInvE s invroot ridge e k)) =
+        eighInvE s invroot ridge e := by funext k; exact hsqrt _ (hv0 k)
+    rw [this]
+  have hflip : ∀ k : Fin n, (flipIx n s k : α) = if n - 1 - k.val < s then 1 else 0 := fun k => rfl
+  refine ⟨?_, ?_, ?_, ?_⟩
+  · rw [hX, conj_diag_pow _ hU1 hU2, conj_diag_mul _ hU1]
+    have : (fun k => eighInvE s invroot ridge e k ^ p * e k) = flipIx n s := by
+      funext k
+      rw [hv, hflip]; split
+      · rename_i h; exact (hinv _ (lt_of_lt_of_le hridge (hpos k h))).2
+      · rename_i h; rw [hzero k h, mul_zero]
+    rw [this]
+  · rw [hX]; simp only [Matrix.transpose_mul, Matrix.diagonal_transpose, Matrix.transpose_transpose, mul_assoc]
+  · rw [hX, conj_diag_mul _ hU1]
+    have : (fun k => eighInvE s invroot ridge e k * flipIx n s k) = eighInvE s invroot ridge e := by
+      funext k
+      rw [hv, hflip]; split <;> simp
+    rw [this]
+  · rw [hX, conj_diag_mul _ hU1]
+    have : (fun k => flipIx n s k * eighInvE s invroot ridge e k) = eighInvE s invroot ridge e := by
+      funext k
+      rw [hv, hflip]; split <;> simp
+    rw [this]
+
+end Eigh
+
+/-! ## power iteration -/
+
+section PI
+variable {α : Type} [Field α] [LinearOrder α] [IsStrictOrderedRing α] {n : Nat}
+
+theorem dot_self_nonneg (v : Vec α n) : 0 ≤ dot v v := by
+  rw [dot, sumFin_eq_sum]; exact Finset.sum_nonneg fun i _ => mul_self_nonneg _
+
+theorem dot_div (v : Vec α n) (c : α) : dot (fun i => v i / c) (fun i => v i / c) = dot v v / (c * c) := by
+  simp only [dot, sumFin_eq_sum]
+  rw [Finset.sum_div]
+  apply Finset.sum_congr rfl
+  intro i _; rw [div_mul_div_comm]
+
+/-- the normalised iterate has squared norm `≤ 1` (`1`, or `0` when the iterate vanishes) -/
+theorem dot_normalised_le_one (sqrt : α → α) (hsqrt : ∀ x, 0 ≤ x → sqrt x * sqrt x = x) (v : Vec α n) :
+    dot (fun i => v i / sqrt (dot v v)) (fun i => v i / sqrt (dot v v)) ≤ 1 := by
+  rw [dot_div, hsqrt _ (dot_self_nonneg v)]
+  by_cases h : dot v v = 0
+  · rw [h]; simp
+  · rw [div_self h]
+
+theorem piBody_le (sqrt : α → α) (hsqrt : ∀ x, 0 ≤ x → sqrt x * sqrt x = x) (tol : α) (A : Mat α n n) (lam : α)
+    (hlam : 0 ≤ lam) (hmax : ∀ x : Vec α n, dot x (Mat.mulVec A x) ≤ lam * dot x x) (st : PIState α n) :
+    (piBody sqrt tol A st).s ≤ lam := by
+  simp only [piBody, DVec.fn_tab]
+  refine le_trans (hmax _) ?_
+  have := dot_normalised_le_one sqrt hsqrt st.v.fn
+  calc lam * _ ≤ lam * 1 := mul_le_mul_of_nonneg_left this hlam
+    _ = lam := mul_one _
+
+theorem piLoop_le (sqrt : α → α) (hsqrt : ∀ x, 0 ≤ x → sqrt x * sqrt x = x) (tol : α) (A : Mat α n n) (lam : α)
+    (hlam : 0 ≤ lam) (hmax : ∀ x : Vec α n, dot x (Mat.mulVec A x) ≤ lam * dot x x) (numIters f : Nat)
+    (st : PIState α n) (h : st.s ≤ lam) : (piLoop sqrt tol A numIters f st).s ≤ lam := by
+  induction f generalizing st with
+  | zero => exact h
+  | succ f ih =>
+    rw [piLoop]; split
+    · exact ih _ (piBody_le sqrt hsqrt tol A lam hlam hmax st)
+    · exact h
+
+end PI
 
 end PrecondVerif.InvRoot
